@@ -74,6 +74,15 @@ type Interp struct {
 	strCache   map[string]StrV
 	bounds     map[*Term]*ival
 	quickHits  int
+	emits      []emitRec
+	reuse      map[string]uint64
+	in2        *Interp
+}
+
+type emitRec struct {
+	label string
+	terms []*Term
+	text  string
 }
 
 func (in *Interp) where() string {
